@@ -10,11 +10,12 @@ resolution). Helper lemmas: `Lemmas/DeclPyClient.lean`.
 
 Every hypothesis that the real generator does not establish is explicit and has a reachable counterexample
 (`example`s below, computed with the model by `decide`; the harness reports the same inputs on the real code):
-`hygienic` (module names the body uses are imported and not hidden by a parameter), `StructArgOk`
-(`noNullableAlias`: python_types and python_client agree on which fields are optional), `nsPrefixFree`,
-`defaultsWellTyped` (a tag default is declared with the union itself, not through an alias), `defaultsPrintable`
-(no string default that pprint wraps), and
-`loadModule = ok` (no duplicate / keyword parameter).
+`hygienic` (no module name the body uses is hidden by a parameter), `StructArgOk`
+(`noNullableAlias`: python_types and python_client agree on which fields are optional), `nsPrefixFree`, and
+`loadModule = ok` (no duplicate / keyword parameter). `defaultsWellTyped` (a tag default refers to the union of its
+field, by name or through any alias) is what the frontend builds. Three former hypotheses are gone with the repairs
+of the generator (regression `example`s below): string defaults that pprint wraps, tag defaults declared through an
+alias of another namespace, route namespaces without data types.
 -/
 namespace StoneVerif.C14
 open StoneVerif.DeclPyClient
@@ -24,12 +25,10 @@ open StoneVerif.DeclPyClient
 /-- The parameters python_client derives from a struct argument are exactly the ones the property text
 describes: the required fields in declaration order (super types first) without a default, then the optional
 ones in declaration order carrying the spec default (`None` for nullable fields). -/
-theorem struct_params_eq_spec (api : Api) (r : Ref) (hwt : defaultsWellTyped api r = true)
-    (hpr : defaultsPrintable api r = true) :
+theorem struct_params_eq_spec (api : Api) (r : Ref) (hwt : defaultsWellTyped api r = true) :
     (allFields stripFirst api r).mapM fieldParam = .ok (specParams api r) := by
   have h1 : (allFields stripFirst api r).mapM fieldParam = .ok ((allFields stripFirst api r).map specParam) :=
-    mapM_ok_of_forall _ _ _ (fun f hf => fieldParam_spec f (wellTyped_field hwt (mem_allFields.mp hf))
-      (printable_field hpr (mem_allFields.mp hf)))
+    mapM_ok_of_forall _ _ _ (fun f hf => fieldParam_spec f (wellTyped_field hwt (mem_allFields.mp hf)))
   rw [h1]
   congr 1
   unfold allFields specParams
@@ -53,13 +52,12 @@ theorem required_positional_optional_keyword (api : Api) (ns : Namespace) (r : R
     (sns sname : Name) (harg : specUnalias r.arg = .struct sns sname)
     (hstrip : stripFirst r.arg = .struct sns sname)
     (hwt : defaultsWellTyped api (sns, sname) = true)
-    (hpr : defaultsPrintable api (sns, sname) = true)
     (hm : routeMethod api ns r false = .ok m) :
     m.params = (if r.style = some "upload".toList then [⟨['f'], none⟩] else []) ++ specParams api (sns, sname) := by
   have _ := harg
   unfold routeMethod argParamsOf at hm
   rw [hstrip] at hm
-  simp only [struct_params_eq_spec api (sns, sname) hwt hpr, Except.map] at hm
+  simp only [struct_params_eq_spec api (sns, sname) hwt, Except.map] at hm
   cases hm
   simp [mkMethod, styleIs]
 
@@ -341,20 +339,20 @@ theorem methods_come_from_routes (api : Api) (cm : ClientModule) (h : pyClient a
     obtain ⟨tf, htf⟩ := routeMethods_all hrl m hml
     exact ⟨ns, hns', by simpa using hc, r, hr, tf, htf⟩
 
-/-- `hygienic` in terms of the spec: the route's namespace (and the namespace of a struct argument) define data
-types - only such namespaces are imported by the client module -, and no parameter / local of the method has the
-name of a module the body uses. -/
+/-- `hygienic` in terms of the spec: no parameter / local of the method has the name of a module the body uses.
+The modules themselves are imported: the route's namespace because it has routes (since the repair of
+c14-namespace-without-data-types-not-imported; only namespaces with data types used to be imported), the namespace
+of a struct argument because it defines that struct. -/
 theorem hygienic_of_spec (api : Api) (cm : ClientModule) (h : pyClient api = .ok cm)
     (ns : Namespace) (hns : ns ∈ api.namespaces) (r : Route) (hr : r ∈ ns.routes) (m : Method)
     (hm : routeMethod api ns r false = .ok m)
-    (hty : ns.hasDataTypes = true)
     (harg : ∀ sns sname, stripFirst r.arg = .struct sns sname → ∃ ns' ∈ api.namespaces, ns'.name = sns ∧ ns'.hasDataTypes = true)
     (hfree : ∀ n ∈ globalsUsed m, n ∉ localNames m) :
     hygienic cm m = true := by
   unfold pyClient at h
   obtain ⟨mss, _, rfl⟩ := except_map_ok h
-  have himp : ∀ ns' ∈ api.namespaces, ns'.hasDataTypes = true →
-      fmtNamespace ns'.name ∈ moduleGlobals { imports := (api.namespaces.filter (·.hasDataTypes)).map (fun ns => fmtNamespace ns.name),
+  have himp : ∀ ns' ∈ api.namespaces, (ns'.hasDataTypes || !ns'.routes.isEmpty) = true →
+      fmtNamespace ns'.name ∈ moduleGlobals { imports := (api.namespaces.filter (fun ns => ns.hasDataTypes || !ns.routes.isEmpty)).map (fun ns => fmtNamespace ns.name),
                                                importsWarnings := api.namespaces.any (fun ns => ns.routes.any (·.deprecated.isSome)),
                                                methods := mss.flatten } := by
     intro ns' hn ht
@@ -399,7 +397,7 @@ theorem hygienic_of_spec (api : Api) (cm : ClientModule) (h : pyClient api = .ok
         simp only [List.mem_singleton] at hn
         subst hn
         obtain ⟨ns', hn', rfl, ht'⟩ := harg sns sname hs
-        exact himp ns' hn' ht'
+        exact himp ns' hn' (by simp [ht'])
       | union a b => rw [hs] at hn; cases hn
       | void => rw [hs] at hn; cases hn
       | prim a => rw [hs] at hn; cases hn
@@ -410,7 +408,10 @@ theorem hygienic_of_spec (api : Api) (cm : ClientModule) (h : pyClient api = .ok
     · -- the module of the route object
       simp only [mkMethod, List.mem_singleton] at hn
       subst hn
-      exact himp ns hns hty
+      refine himp ns hns ?_
+      cases hrs : ns.routes with
+      | nil => rw [hrs] at hr; cases hr
+      | cons _ _ => simp
 
 /-! ## literal tables of the code -/
 
@@ -438,7 +439,7 @@ theorem tables_pinned :
        "'return r'"] ∧
     Tables.pyClientMethodName =
       ["fmt_func(route.name + method_name_suffix, version=route.version)", "fmt_underscores(namespace.name)"] ∧
-    Tables.pyClientImportTest = ["namespace.data_types"] ∧
+    Tables.pyClientImportTest = ["namespace.data_types or namespace.routes"] ∧
     Tables.pyClientRequestSignature = ["def request(self, route, namespace, request_arg, request_binary, timeout=None):"] :=
   ⟨rfl, by decide, rfl, rfl, rfl, rfl, rfl, rfl, rfl, rfl, rfl, rfl, rfl, rfl⟩
 
@@ -468,7 +469,7 @@ def exApi : Api :=
           ⟨s "root_id", str, none⟩, ⟨s "limit", .prim (s "UInt32"), some (.int 25)⟩, ⟨s "trace", .nullable str, none⟩] },
       { ref := (s "files", s "UploadArg"), parent := some (s "common", s "PathRoot"), fields := [
           ⟨s "path", str, none⟩,
-          ⟨s "mode", .union (s "common") (s "WriteMode"), some (.tag (s "common") (s "WriteMode") (s "add"))⟩] }] }
+          ⟨s "mode", .union (s "common") (s "WriteMode"), some (.tag (.union (s "common") (s "WriteMode")) (s "add"))⟩] }] }
 
 /-- run `f` on the generated module -/
 def withModule (api : Api) (f : ClientModule → Bool) : Bool :=
@@ -499,7 +500,7 @@ example : (pyClientMethods exApi).map (·.name) =
 -- every hypothesis of `client_call_builds_arg` holds of this instance
 example : withModule exApi (fun cm => cm.methods.all (hygienic cm) && (loadResult exApi cm == none)) = true := by decide
 example : noNullableAlias exApi (s "files", s "UploadArg") = true ∧ defaultsWellTyped exApi (s "files", s "UploadArg") = true ∧
-    defaultsPrintable exApi (s "files", s "UploadArg") = true ∧ nsPrefixFree exApi = true := by decide
+    nsPrefixFree exApi = true := by decide
 
 -- parameters: upload body, required fields (parents first), optional ones with their defaults
 example : withModule exApi (fun cm => (classAttr cm (s "files_upload_v2")).map (·.params) ==
@@ -544,27 +545,33 @@ def exDupF : Api :=
 example : withModule exDupF (fun cm => loadResult exDupF cm == some (.syntaxError (s "files_put") (s "duplicate"))) = true := by
   decide
 
-/-- a string default with a blank: `pprint.pformat(width=1)` wraps it, `emit` refuses the line, no client at all
-(python_types prints such defaults with `repr` since 0ee41ed) -/
+/-- regression of c14-string-default-with-blank: a string default with a blank used to be printed with
+`pprint.pformat(width=1)`, which wraps it; `emit` refused the line and the spec had no client at all. It is printed
+with `repr` now (as python_types does since 0ee41ed): the method carries the default. -/
 def exBlankDefault : Api :=
   { namespaces := [{ name := s "b", dataTypes := [s "A"], aliases := [], routes :=
       [{ name := s "r", version := 1, arg := .struct (s "b") (s "A"), result := .void, deprecated := none, style := none }] }]
     structs := [{ ref := (s "b", s "A"), parent := none, fields :=
       [⟨s "path", str, none⟩, ⟨s "label", str, some (.str (s "two words"))⟩] }] }
 
-example : (match pyClient exBlankDefault with | .error e => e == .multilineDefault (s "label") | .ok _ => false) = true ∧
-    defaultsPrintable exBlankDefault (s "b", s "A") = false := by decide
-example : pformatWraps (s "two_words ") = false ∧ pformatWraps (s " x") = true ∧ pformatWraps (s "a\n") = false ∧
-    pformatWraps (s "a\n ") = true ∧ pformatWraps (s "a\r\n") = false := by decide
+example : withModule exBlankDefault (fun cm => (classAttr cm (s "b_r")).map (·.params) ==
+    some [⟨s "path", none⟩, ⟨s "label", some (.lit (.str (s "two words")))⟩]) = true := by decide
+example : callOk exBlankDefault "b_r" ⟨[.tok 0], []⟩
+    { requests := [{ route := (s "b", s "r"), ns := s "b"
+                     arg := .struct (s "b") (s "A") [(s "path", .tok 0), (s "label", .lit (.str (s "two words")))], body := none }]
+      warned := false, saved := none, ret := .none } = true := by decide
 
-/-- a namespace with routes but no data types is never imported: `hygienic` fails, the call raises NameError -/
+/-- regression of c14-namespace-without-data-types-not-imported: a namespace with routes but no data types used not
+to be imported (`hygienic` failed, every call raised NameError); it is imported now and the call issues the request -/
 def exNoImport : Api :=
   { namespaces := [{ name := s "check", dataTypes := [], aliases := [], routes :=
       [{ name := s "ping", version := 1, arg := .void, result := .void, deprecated := none, style := none }] }]
     structs := [] }
 
-example : withModule exNoImport (fun cm => cm.methods.all (fun m => !hygienic cm m)) = true := by decide
-example : callErr exNoImport "check_ping" ⟨[], []⟩ (.nameError (s "check")) = true := by decide
+example : withModule exNoImport (fun cm => cm.imports == [s "check"] && cm.methods.all (hygienic cm)) = true := by decide
+example : callOk exNoImport "check_ping" ⟨[], []⟩
+    { requests := [{ route := (s "check", s "ping"), ns := s "check", arg := .none, body := none }]
+      warned := false, saved := none, ret := .none } = true := by decide
 
 /-- a field named like the module the body needs -/
 def exShadow : Api :=
@@ -594,7 +601,9 @@ def exNsClash : Api :=
 example : (pyClientMethods exNsClash).map (·.name) = [s "team_log_get", s "team_log_get"] ∧ nsPrefixFree exNsClash = false := by
   decide
 
-/-- a tag default declared through an alias that lives in another namespace than the union -/
+/-- regression of c14-tag-default-foreign-alias-*: a tag default declared through an alias that lives in another
+namespace than the union used to be written `common.ForeignMode.add` (the alias's name in the union's module:
+AttributeError on import, or another class's tag); the alias is unwrapped now: `common.WriteMode.add` -/
 def exForeignAlias : Api :=
   { namespaces := [
       { name := s "common", dataTypes := [s "WriteMode"], aliases := [], routes := [] },
@@ -602,10 +611,15 @@ def exForeignAlias : Api :=
         [{ name := s "put", version := 1, arg := .struct (s "files") (s "Arg"), result := .void, deprecated := none, style := none }] }]
     structs := [{ ref := (s "files", s "Arg"), parent := none, fields := [
       ⟨s "mode", .alias (s "files") (s "ForeignMode") (.union (s "common") (s "WriteMode")),
-        some (.tag (s "files") (s "ForeignMode") (s "add"))⟩] }] }
+        some (.tag (.alias (s "files") (s "ForeignMode") (.union (s "common") (s "WriteMode"))) (s "add"))⟩] }] }
 
-example : withModule exForeignAlias (fun cm => loadResult exForeignAlias cm == some (.attributeError (s "ForeignMode"))) = true := by
-  decide
-example : defaultsWellTyped exForeignAlias (s "files", s "Arg") = false := by decide
+example : withModule exForeignAlias (fun cm => loadResult exForeignAlias cm == none &&
+    (classAttr cm (s "files_put")).map (·.params) ==
+      some [⟨s "mode", some (.tagAttr (s "common") (s "WriteMode") (s "add"))⟩]) = true := by decide
+example : callOk exForeignAlias "files_put" ⟨[], []⟩
+    { requests := [{ route := (s "files", s "put"), ns := s "files"
+                     arg := .struct (s "files") (s "Arg") [(s "mode", .tagObj (s "common", s "WriteMode") (s "add"))], body := none }]
+      warned := false, saved := none, ret := .none } = true := by decide
+example : defaultsWellTyped exForeignAlias (s "files", s "Arg") = true := by decide
 
 end StoneVerif.C14
